@@ -168,8 +168,27 @@ let cmd_hdr rest =
              ^ " " ^ q_str o.ho_amp) outs))
   | _ -> "BAD"
 
+(* widths K a_num a_den len dt n data[n] -> median | widths[K] | deciles[K] (all as num den) *)
+let cmd_widths rest =
+  match ints rest with
+  | k :: an :: ad :: len :: dt :: n :: r ->
+      let data = take n r in
+      let ((m, w), d) = compute_widths (nat_of_int k) (q_of_frac an ad) (z_of_int len) (z_of_int dt)
+                          (List.map q_of_int data) in
+      String.concat " " (List.map q_str (m :: (w @ d)))
+  | _ -> "BAD"
+
+(* center time len dt n data[n] *)
+let cmd_center rest =
+  match ints rest with
+  | time :: len :: dt :: n :: r ->
+      string_of_int (iz (center_time (z_of_int time) (z_of_int len) (z_of_int dt) (zl (take n r))))
+  | _ -> "BAD"
+
 let handle toks =
   match toks with
+  | "widths" :: rest -> cmd_widths rest
+  | "center" :: rest -> cmd_center rest
   | "hdr" :: rest -> cmd_hdr rest
   | "sum_waveform" :: rest -> cmd_sum_waveform rest
   | "split" :: rest -> cmd_split rest
